@@ -24,16 +24,26 @@ Inductive sty :=
 | STupleFix (ts: list sty)
 | SDict (kt vt: sty)
 | SOpt (t: sty)
-| SData (c: string).
+| SData (c: string)
+| SNamed (c: string)                   (* typing.NamedTuple class, default as_list form *)
+| STyped (c: string).                  (* TypedDict class *)
 
-Record sfield := { sf_name : string; sf_ty : sty; sf_default : option pv }.
-Record scls := { sc_name : string; sc_fields : list sfield }.
+(* one class table for dataclasses, NamedTuples and TypedDicts; a class is looked up by kind
+   and name.  [sf_default]: dataclass field default / NamedTuple field default (ignored for a
+   TypedDict); [sf_opt]: the key is not required (TypedDict total=False / NotRequired; ignored
+   for dataclasses and NamedTuples). *)
+Inductive ckind := KData | KNamed | KTyped.
+Definition ckind_eqb (a b: ckind) : bool :=
+  match a, b with KData, KData | KNamed, KNamed | KTyped, KTyped => true | _, _ => false end.
+
+Record sfield := { sf_name : string; sf_ty : sty; sf_default : option pv; sf_opt : bool }.
+Record scls := { sc_kind : ckind; sc_name : string; sc_fields : list sfield }.
 Definition senv := list scls.
 
-Fixpoint sfind (E: senv) (n: string) : option scls :=
+Fixpoint sfind (E: senv) (kd: ckind) (n: string) : option scls :=
   match E with
   | [] => None
-  | c :: r => if String.eqb c.(sc_name) n then Some c else sfind r n end.
+  | c :: r => if ckind_eqb c.(sc_kind) kd && String.eqb c.(sc_name) n then Some c else sfind r kd n end.
 
 (* ------------------------------------------------------------------ *)
 (* environment of stdlib primitives the model does not compute (oracles).
@@ -66,7 +76,9 @@ Inductive penc :=
 | ECopyDict
 | EDictComp (ke ve: penc)               (* {ke: ve for key, value in x.items()} *)
 | ETupleFix (es: list penc)             (* [e0(x[0]), e1(x[1]), ...] *)
-| EData (c: string).                    (* dataclass packer (plain Config) *)
+| EData (c: string)                     (* dataclass packer (plain Config) *)
+| ENamed (c: string)                    (* [e0(value[0]), e1(value[1]), ...] over the NamedTuple fields *)
+| ETyped (c: string).                   (* d = {}; d[k] = e(value[k]) for required keys; optional keys when present *)
 
 Definition is_id (e: penc) : bool := match e with EId => true | _ => false end.
 
@@ -90,12 +102,112 @@ Fixpoint cp (cbn: bool) (t: sty) {struct t} : penc :=
   | SDict kt vt => map_expr (cp true kt) (cp true vt)
   | SOpt t' => let e := cp cbn t' in if cbn then EOpt e else e
   | SData c => EData c
+  | SNamed c => ENamed c
+  | STyped c => ETyped c
   end.
 
 (* field-level nullability (builder.py): Optional / Any / None annotation or default None *)
 Definition sty_nullable (t: sty) : bool := match t with SAny | SNoneT | SOpt _ => true | _ => false end.
 Definition sfield_nullable (f: sfield) : bool :=
   sty_nullable f.(sf_ty) || match f.(sf_default) with Some VNone => true | _ => false end.
+
+(* ------------------------------------------------------------------ *)
+(* NamedTuple / TypedDict machinery shared by the packer, the unpacker and both references.
+   Generic in the kind of item ([X]: a value, a character of a str input) resp. of looked-up
+   entry ([D]: a closure "the decoder of that entry", see the [EData]/[UData] cases), so that
+   one set of lemmas serves all four interpreters. *)
+Definition has_default (fds: list sfield) : bool :=
+  existsb (fun f => match f.(sf_default) with Some _ => true | None => false end) fds.
+
+(* C( *fields ) with fewer items than fields: the remaining ones take their defaults,
+   TypeError (missing required positional argument) if one has none *)
+Fixpoint nt_defaults (fds: list sfield) : res (list pv) :=
+  match fds with
+  | [] => Ok []
+  | f :: r => match f.(sf_default) with
+              | Some dv => ys <- nt_defaults r ;; Ok (dv :: ys)
+              | None => Exn XTypeError end
+  end.
+
+(* what happens when value[i] raises IndexError at a position that does read its input *)
+Definition nt_exhausted (hd: bool) (rest: list sfield) : res (list pv) :=
+  if hd then nt_defaults rest else Exn XIndexError.
+
+Section NtWalk.
+  Context {X: Type}.
+  Variable run : sfield -> X -> res pv.            (* the item (un)packer of a field *)
+  Variable konst : sfield -> option pv.            (* Some c: the generated expression is the constant c, the item is not read *)
+  Variable miss : list sfield -> res (list pv).    (* a reading position finds no item; argument: that field and all later ones *)
+
+  Fixpoint nt_tail (fds: list sfield) : res (list pv) :=
+    match fds with
+    | [] => Ok []
+    | f :: r => match konst f with
+                | Some c => match nt_tail r with Ok ys => Ok (c :: ys) | Exn e => Exn e end
+                | None => miss fds end
+    end.
+
+  (* positional: field i reads item i; surplus items are ignored *)
+  Fixpoint nt_items (fds: list sfield) (l: list X) {struct l} : res (list pv) :=
+    match fds, l with
+    | [], _ => Ok []
+    | _ :: _, [] => nt_tail fds
+    | f :: rest, x :: l' =>
+        match run f x with
+        | Ok y => match nt_items rest l' with Ok ys => Ok (y :: ys) | Exn e => Exn e end
+        | Exn e => Exn e end
+    end.
+End NtWalk.
+
+Section Look.
+  Context {D: Type}.
+  (* value[name] / value.get(name): first entry whose key == name *)
+  Fixpoint look (es: list (pv * D)) (name: string) : option D :=
+    match es with
+    | [] => None
+    | (key, d) :: er => if py_eq key (VStr name) then Some d else look er name
+    end.
+End Look.
+
+(* sorted(required_keys, key=all_keys.index) followed by sorted(optional_keys, key=all_keys.index) *)
+Definition td_order (fds: list sfield) : list sfield :=
+  filter (fun f => negb f.(sf_opt)) fds ++ filter (fun f => f.(sf_opt)) fds.
+
+Section TdWalk.
+  Context {D: Type}.
+  Variable run : sfield -> D -> res pv.            (* the value (un)packer of a key, applied to the entry found *)
+  Variable konst : sfield -> option pv.            (* required key whose expression is a constant: value[key] is not evaluated *)
+  Variable miss : exn.                             (* value[key] fails *)
+
+  (* None: the key is left out of the result *)
+  Definition td_field (es: list (pv * D)) (f: sfield) : option (res pv) :=
+    if f.(sf_opt) then
+      match look es f.(sf_name) with Some d => Some (run f d) | None => None end
+    else
+      match konst f with
+      | Some c => Some (Ok c)
+      | None => match look es f.(sf_name) with Some d => Some (run f d) | None => Some (Exn miss) end
+      end.
+
+  Fixpoint td_go (es: list (pv * D)) (fds: list sfield) : res (list (pv * pv)) :=
+    match fds with
+    | [] => Ok []
+    | f :: rest =>
+        match td_field es f with
+        | Some ry => y <- ry ;; tl <- td_go es rest ;; Ok ((VStr f.(sf_name), y) :: tl)
+        | None => td_go es rest end
+    end.
+End TdWalk.
+
+(* a TypedDict (un)packer applied to something that is not a dict: value[key] raises TypeError
+   at the first required key that is read, value.get raises AttributeError at the first optional
+   key; a class whose keys are all required constants (or that has no key) accepts anything *)
+Definition td_nondict (konst: sfield -> option pv) (fds: list sfield) : res pv :=
+  r <- td_go (fun (_: sfield) (_: unit) => Exn XTypeError) konst XTypeError [] (td_order fds) ;;
+  if existsb (fun f => f.(sf_opt)) fds then Exn XAttributeError else Ok (VDict r).
+
+(* fuel exhausted while a str input descends through NamedTuple classes (see [uk_str]) *)
+Definition XRecursion : exn := XOther "RecursionError".
 
 Section Run.
   Variable E : senv.
@@ -141,7 +253,7 @@ Section Run.
           | VObj c' fs =>
               (* codec path: static call of class c's packer on the instance's attributes
                  (fields are kept in class order in [VObj]) *)
-              match sfind E c with
+              match sfind E KData c with
               | None => Exn XAttributeError
               | Some k =>
                   r <- (fix go (fds: list sfield) (fs: list (string * pv)) {struct fs} : res (list (pv * pv)) :=
@@ -158,6 +270,32 @@ Section Run.
                   Ok (VDict r)
               end
           | _ => Exn XAttributeError
+          end
+      | ENamed c =>
+          match sfind E KNamed c with
+          | None => Exn XAttributeError
+          | Some k =>
+              match v with
+              | VNT _ l | VTuple l | VList l =>
+                  r <- nt_items (fun f x => pk x (cp true f.(sf_ty))) (fun _ => None)
+                                (fun _ => Exn XIndexError) k.(sc_fields) l ;;
+                  Ok (VList r)
+              | _ => Exn XTypeError
+              end
+          end
+      | ETyped c =>
+          match sfind E KTyped c with
+          | None => Exn XAttributeError
+          | Some k =>
+              match v with
+              | VDict kvs =>
+                  let entries : list (pv * (penc -> res pv)) :=
+                      map (fun p => match p with (key, x) => (key, pk x) end) kvs in
+                  r <- td_go (fun f dx => dx (cp true f.(sf_ty))) (fun _ => None) XKeyError
+                             entries (td_order k.(sc_fields)) ;;
+                  Ok (VDict r)
+              | _ => Exn XTypeError
+              end
           end
       end.
 
@@ -196,7 +334,7 @@ Section Run.
       | SData c =>
           match v with
           | VObj c' fs =>
-              match sfind E c with
+              match sfind E KData c with
               | None => Exn XAttributeError
               | Some k =>
                   r <- (fix go (fds: list sfield) (fs: list (string * pv)) {struct fs} : res (list (pv * pv)) :=
@@ -215,6 +353,34 @@ Section Run.
               end
           | _ => Exn XAttributeError
           end
+      | SNamed c =>
+          (* a list with one converted item per field, in field order *)
+          match sfind E KNamed c with
+          | None => Exn XAttributeError
+          | Some k =>
+              match v with
+              | VNT _ l | VTuple l | VList l =>
+                  r <- nt_items (fun f x => ref_enc x f.(sf_ty)) (fun _ => None)
+                                (fun _ => Exn XIndexError) k.(sc_fields) l ;;
+                  Ok (VList r)
+              | _ => Exn XTypeError
+              end
+          end
+      | STyped c =>
+          (* a dict with the converted value of every required key, then of the optional keys present *)
+          match sfind E KTyped c with
+          | None => Exn XAttributeError
+          | Some k =>
+              match v with
+              | VDict kvs =>
+                  let entries : list (pv * (sty -> res pv)) :=
+                      map (fun p => match p with (key, x) => (key, ref_enc x) end) kvs in
+                  r <- td_go (fun f dx => dx f.(sf_ty)) (fun _ => None) XKeyError
+                             entries (td_order k.(sc_fields)) ;;
+                  Ok (VDict r)
+              | _ => Exn XTypeError
+              end
+          end
       end.
 
   (* ---------------------------------------------------------------- *)
@@ -231,7 +397,9 @@ Section Run.
   | UTupleVar (u: pdec)
   | UTupleFix (us: list pdec)           (* tuple([u0(v[0]), ...]) *)
   | UDictComp (ku vu: pdec)
-  | UData (c: string).
+  | UData (c: string)
+  | UNamed (c: string)                  (* C(u0(value[0]), ...) / the try-append-except IndexError function when C has defaults *)
+  | UTyped (c: string).                 (* d = {}; d[k] = u(value[k]) ...; key_value = value.get(k, MISSING) ... *)
 
   Fixpoint cu (cbn: bool) (t: sty) {struct t} : pdec :=
     match t with
@@ -248,6 +416,8 @@ Section Run.
     | SDict kt vt => UDictComp (cu true kt) (cu true vt)
     | SOpt t' => let u := cu cbn t' in if cbn then UOpt u else u
     | SData c => UData c
+    | SNamed c => UNamed c
+    | STyped c => UTyped c
     end.
 
   Definition coerce_s (s: scalar) (v: pv) : res pv :=
@@ -281,32 +451,56 @@ Section Run.
                 | None => Exn XIndexError end
     end.
 
-  (* a str arriving at any decoder: iteration yields one-character strings, so the
-     whole behaviour is a function of the decoder alone (structural on it) *)
-  Fixpoint uk_str (u: pdec) (s: string) {struct u} : res pv :=
+  Definition konst_u (f: sfield) : option pv := const_dec (cu true f.(sf_ty)).
+
+  (* a str arriving at any decoder: iteration yields one-character strings, so the whole
+     behaviour is a function of the decoder alone.  Structural on the decoder except where a
+     NamedTuple class is entered through the class table: the fuel [n] is consumed there and
+     only there.  [uk] starts it with [List.length E]; it cannot run out when the NamedTuple classes
+     of the table do not refer to themselves through NamedTuple/container positions (a chain of
+     distinct classes is at most [List.length E] long; Python cannot even build the codec of a
+     self-referential NamedTuple).  On exhaustion: RecursionError. *)
+  Fixpoint uk_str (n: nat) {struct n} : pdec -> string -> res pv :=
+    fix on_u (u: pdec) {struct u} : string -> res pv := fun s =>
     match u with
     | UId => Ok (VStr s)
     | UScalar sc => coerce_s sc (VStr s)
     | ULeaf k => w <- lift (P.(p_parse) k (VStr s)) ;; Ok (VLeaf k w)
     | UB64 m => b <- lift (P.(p_b64dec) (VStr s)) ;; Ok (VBytes m b)
     | UEnum e => mn <- lift (P.(p_enum_of) e (VStr s)) ;; Ok (VEnum e mn)
-    | UOpt u' => uk_str u' s
-    | UListComp u' => r <- mapM (uk_str u') (utf8_chars s) ;; Ok (VList r)
-    | USetComp fr u' => r <- mapM (uk_str u') (utf8_chars s) ;;
+    | UOpt u' => on_u u' s
+    | UListComp u' => r <- mapM (on_u u') (utf8_chars s) ;; Ok (VList r)
+    | USetComp fr u' => r <- mapM (on_u u') (utf8_chars s) ;;
         if forallb hashable r then Ok (VSet fr (set_of_list r)) else Exn XTypeError
-    | UTupleVar u' => r <- mapM (uk_str u') (utf8_chars s) ;; Ok (VTuple r)
+    | UTupleVar u' => r <- mapM (on_u u') (utf8_chars s) ;; Ok (VTuple r)
     | UTupleFix us =>
         r <- (fix go (us: list pdec) (l: list string) {struct us} : res (list pv) :=
                 match us, l with
                 | [], _ => Ok []
                 | _ :: _, [] => none_tail us
-                | u' :: us', x :: l' => y <- uk_str u' x ;; ys <- go us' l' ;; Ok (y :: ys)
+                | u' :: us', x :: l' => y <- on_u u' x ;; ys <- go us' l' ;; Ok (y :: ys)
                 end) us (utf8_chars s) ;;
         Ok (VTuple r)
     | UDictComp _ _ => Exn XAttributeError
-    | UData c => match sfind E c with
+    | UData c => match sfind E KData c with
                  | Some _ => Exn XValueError       (* a str is not a mapping *)
                  | None => Exn XAttributeError end
+    | UNamed c =>
+        match sfind E KNamed c with
+        | None => Exn XAttributeError
+        | Some k =>
+            match n with
+            | O => Exn XRecursion
+            | S n' =>
+                r <- nt_items (fun f x => uk_str n' (cu true f.(sf_ty)) x) konst_u
+                              (nt_exhausted (has_default k.(sc_fields))) k.(sc_fields) (utf8_chars s) ;;
+                Ok (VNT c r)
+            end
+        end
+    | UTyped c =>
+        match sfind E KTyped c with
+        | None => Exn XAttributeError
+        | Some k => td_nondict konst_u k.(sc_fields) end
     end.
 
   Fixpoint uk (d: pv) {struct d} : pdec -> res pv :=
@@ -322,7 +516,7 @@ Section Run.
           match d with
           | VList l | VTuple l | VSet _ l => r <- mapM (fun x => uk x u') l ;; Ok (VList r)
           | VDict kvs => r <- mapM (fun p => match p with (k, _) => uk k u' end) kvs ;; Ok (VList r)
-          | VStr s => uk_str u s
+          | VStr s => uk_str (List.length E) u s
           | _ => Exn XTypeError end
       | USetComp fr u' =>
           match d with
@@ -331,13 +525,13 @@ Section Run.
               if forallb hashable r then Ok (VSet fr (set_of_list r)) else Exn XTypeError
           | VDict kvs => r <- mapM (fun p => match p with (k, _) => uk k u' end) kvs ;;
               if forallb hashable r then Ok (VSet fr (set_of_list r)) else Exn XTypeError
-          | VStr s => uk_str u s
+          | VStr s => uk_str (List.length E) u s
           | _ => Exn XTypeError end
       | UTupleVar u' =>
           match d with
           | VList l | VTuple l | VSet _ l => r <- mapM (fun x => uk x u') l ;; Ok (VTuple r)
           | VDict kvs => r <- mapM (fun p => match p with (k, _) => uk k u' end) kvs ;; Ok (VTuple r)
-          | VStr s => uk_str u s
+          | VStr s => uk_str (List.length E) u s
           | _ => Exn XTypeError end
       | UTupleFix us =>
           match d with
@@ -349,7 +543,7 @@ Section Run.
                       | u' :: us', x :: l' => y <- uk x u' ;; ys <- go us' l' ;; Ok (y :: ys)
                       end) us l ;;
               Ok (VTuple r)
-          | VStr s => uk_str u s
+          | VStr s => uk_str (List.length E) u s
           | _ => r <- none_tail us ;; Ok (VTuple r)     (* only constant positions never index the value *)
           end
       | UDictComp ku vu =>
@@ -361,7 +555,7 @@ Section Run.
               Ok (VDict (dict_of_pairs r))
           | _ => Exn XAttributeError end
       | UData c =>
-          match sfind E c with
+          match sfind E KData c with
           | None => Exn XAttributeError
           | Some k =>
               match d with
@@ -393,6 +587,37 @@ Section Run.
               | _ => Exn XValueError               (* non-mapping argument *)
               end
           end
+      | UNamed c =>
+          match sfind E KNamed c with
+          | None => Exn XAttributeError
+          | Some k =>
+              match d with
+              | VList l | VTuple l =>
+                  (* an error raised inside an item unpacker always propagates (fix 8ccb0df) *)
+                  r <- nt_items (fun f x => uk x (cu true f.(sf_ty))) konst_u
+                                (nt_exhausted (has_default k.(sc_fields))) k.(sc_fields) l ;;
+                  Ok (VNT c r)
+              | VStr s => uk_str (List.length E) u s
+              | _ =>
+                  (* value[i] fails with something that is not IndexError: no defaults; only
+                     constant positions never index the value *)
+                  r <- nt_tail konst_u (fun _ => Exn XTypeError) k.(sc_fields) ;; Ok (VNT c r)
+              end
+          end
+      | UTyped c =>
+          match sfind E KTyped c with
+          | None => Exn XAttributeError
+          | Some k =>
+              match d with
+              | VDict kvs =>
+                  let entries : list (pv * (pdec -> res pv)) :=
+                      map (fun p => match p with (key, x) => (key, uk x) end) kvs in
+                  r <- td_go (fun f dx => dx (cu true f.(sf_ty))) konst_u XKeyError
+                             entries (td_order k.(sc_fields)) ;;
+                  Ok (VDict r)
+              | _ => td_nondict konst_u k.(sc_fields)
+              end
+          end
       end.
 
   (* ---------------------------------------------------------------- *)
@@ -413,7 +638,11 @@ Section Run.
                 | None => Exn XIndexError end
     end.
 
-  Fixpoint ref_dec_str (t: sty) (s: string) {struct t} : res pv :=
+  Definition konst_t (f: sfield) : option pv := const_ty f.(sf_ty).
+
+  (* fuel: as for [uk_str] *)
+  Fixpoint ref_dec_str (n: nat) {struct n} : sty -> string -> res pv :=
+    fix on_t (t: sty) {struct t} : string -> res pv := fun s =>
     match t with
     | SAny => Ok (VStr s)
     | SNoneT => Ok VNone
@@ -424,23 +653,39 @@ Section Run.
     | SBytes m => b <- lift (P.(p_b64dec) (VStr s)) ;; Ok (VBytes m b)
     | SLeaf k => w <- lift (P.(p_parse) k (VStr s)) ;; Ok (VLeaf k w)
     | SEnum e => mn <- lift (P.(p_enum_of) e (VStr s)) ;; Ok (VEnum e mn)
-    | SList t' => r <- mapM (ref_dec_str t') (utf8_chars s) ;; Ok (VList r)
-    | SSet fr t' => r <- mapM (ref_dec_str t') (utf8_chars s) ;;
+    | SList t' => r <- mapM (on_t t') (utf8_chars s) ;; Ok (VList r)
+    | SSet fr t' => r <- mapM (on_t t') (utf8_chars s) ;;
         if forallb hashable r then Ok (VSet fr (set_of_list r)) else Exn XTypeError
-    | STupleVar t' => r <- mapM (ref_dec_str t') (utf8_chars s) ;; Ok (VTuple r)
+    | STupleVar t' => r <- mapM (on_t t') (utf8_chars s) ;; Ok (VTuple r)
     | STupleFix ts =>
         r <- (fix go (ts: list sty) (l: list string) {struct ts} : res (list pv) :=
                 match ts, l with
                 | [], _ => Ok []
                 | _ :: _, [] => none_tail_t ts    (* NoneType's constructor is the constant None: the item is not read *)
-                | t' :: ts', x :: l' => y <- ref_dec_str t' x ;; ys <- go ts' l' ;; Ok (y :: ys)
+                | t' :: ts', x :: l' => y <- on_t t' x ;; ys <- go ts' l' ;; Ok (y :: ys)
                 end) ts (utf8_chars s) ;;
         Ok (VTuple r)
     | SDict _ _ => Exn XAttributeError
-    | SOpt t' => ref_dec_str t' s
-    | SData c => match sfind E c with
+    | SOpt t' => on_t t' s
+    | SData c => match sfind E KData c with
                  | Some _ => Exn XValueError
                  | None => Exn XAttributeError end
+    | SNamed c =>
+        match sfind E KNamed c with
+        | None => Exn XAttributeError
+        | Some k =>
+            match n with
+            | O => Exn XRecursion
+            | S n' =>
+                r <- nt_items (fun f x => ref_dec_str n' f.(sf_ty) x) konst_t
+                              (nt_exhausted (has_default k.(sc_fields))) k.(sc_fields) (utf8_chars s) ;;
+                Ok (VNT c r)
+            end
+        end
+    | STyped c =>
+        match sfind E KTyped c with
+        | None => Exn XAttributeError
+        | Some k => td_nondict konst_t k.(sc_fields) end
     end.
 
   Fixpoint ref_dec (d: pv) {struct d} : sty -> res pv :=
@@ -459,7 +704,7 @@ Section Run.
           match d with
           | VList l | VTuple l | VSet _ l => r <- mapM (fun x => ref_dec x t') l ;; Ok (VList r)
           | VDict kvs => r <- mapM (fun p => match p with (k, _) => ref_dec k t' end) kvs ;; Ok (VList r)
-          | VStr s => ref_dec_str t s
+          | VStr s => ref_dec_str (List.length E) t s
           | _ => Exn XTypeError end
       | SSet fr t' =>
           match d with
@@ -468,13 +713,13 @@ Section Run.
               if forallb hashable r then Ok (VSet fr (set_of_list r)) else Exn XTypeError
           | VDict kvs => r <- mapM (fun p => match p with (k, _) => ref_dec k t' end) kvs ;;
               if forallb hashable r then Ok (VSet fr (set_of_list r)) else Exn XTypeError
-          | VStr s => ref_dec_str t s
+          | VStr s => ref_dec_str (List.length E) t s
           | _ => Exn XTypeError end
       | STupleVar t' =>
           match d with
           | VList l | VTuple l | VSet _ l => r <- mapM (fun x => ref_dec x t') l ;; Ok (VTuple r)
           | VDict kvs => r <- mapM (fun p => match p with (k, _) => ref_dec k t' end) kvs ;; Ok (VTuple r)
-          | VStr s => ref_dec_str t s
+          | VStr s => ref_dec_str (List.length E) t s
           | _ => Exn XTypeError end
       | STupleFix ts =>
           match d with
@@ -486,7 +731,7 @@ Section Run.
                       | t' :: ts', x :: l' => y <- ref_dec x t' ;; ys <- go ts' l' ;; Ok (y :: ys)
                       end) ts l ;;
               Ok (VTuple r)
-          | VStr s => ref_dec_str t s
+          | VStr s => ref_dec_str (List.length E) t s
           | _ => r <- none_tail_t ts ;; Ok (VTuple r)
           end
       | SDict kt vt =>
@@ -499,7 +744,7 @@ Section Run.
           | _ => Exn XAttributeError end
       | SOpt t' => if is_none d then Ok VNone else on_t t'
       | SData c =>
-          match sfind E c with
+          match sfind E KData c with
           | None => Exn XAttributeError
           | Some k =>
               match d with
@@ -525,8 +770,39 @@ Section Run.
                               tl <- go rest ;; Ok ((f.(sf_name), y) :: tl)
                           end) k.(sc_fields) ;;
                   Ok (VObj c r)
-              | VStr s => ref_dec_str t s
+              | VStr s => ref_dec_str (List.length E) t s
               | _ => Exn XValueError
+              end
+          end
+      | SNamed c =>
+          (* the class applied to one converted item per field, read by position; surplus items
+             ignored; when the class declares defaults, a sequence that ends early leaves the
+             remaining fields to their defaults *)
+          match sfind E KNamed c with
+          | None => Exn XAttributeError
+          | Some k =>
+              match d with
+              | VList l | VTuple l =>
+                  r <- nt_items (fun f x => ref_dec x f.(sf_ty)) konst_t
+                                (nt_exhausted (has_default k.(sc_fields))) k.(sc_fields) l ;;
+                  Ok (VNT c r)
+              | VStr s => ref_dec_str (List.length E) t s
+              | _ => r <- nt_tail konst_t (fun _ => Exn XTypeError) k.(sc_fields) ;; Ok (VNT c r)
+              end
+          end
+      | STyped c =>
+          (* a dict with every required key converted, then the optional keys present; unknown keys ignored *)
+          match sfind E KTyped c with
+          | None => Exn XAttributeError
+          | Some k =>
+              match d with
+              | VDict kvs =>
+                  let entries : list (pv * (sty -> res pv)) :=
+                      map (fun p => match p with (key, x) => (key, ref_dec x) end) kvs in
+                  r <- td_go (fun f dx => dx f.(sf_ty)) konst_t XKeyError
+                             entries (td_order k.(sc_fields)) ;;
+                  Ok (VDict r)
+              | _ => td_nondict konst_t k.(sc_fields)
               end
           end
       end.
